@@ -118,7 +118,7 @@ fn run_plan(
     if !has_byte_faults(plan) {
         return (child::run_forked(plan, sandbox, full, verbose, judge_fn), vec![], prepared);
     }
-    let root = exec::TREE_ROOT.get_or_init(|| scratch_root().join(format!("tree-{}", std::process::id()))).clone();
+    let root = exec::TREE_ROOT.get_or_init(|| sandbox.parent().expect("run root").join("tree")).clone();
     let mut tree = tree::Tree::ensure(&root);
     let applied = tree.apply(plan);
     let res = child::run_forked(plan, sandbox, full, verbose, judge_fn);
@@ -167,7 +167,7 @@ fn cmd_check(args: &[String]) {
     let max_viol: usize = arg_value(args, "--max-violations").and_then(|s| s.parse().ok()).unwrap_or(60);
     exec::install_panic_hook();
     sim::install_hooks();
-    let sandbox = scratch_root().join(format!("shard-{}-{}", shard, std::process::id()));
+    let sandbox = scratch_root().join(format!("shard-{}-{}", shard, std::process::id())).join("sb");
     let mut groups = workload::groups(&property, &tier, seed);
     let total = groups.len();
     // a seeded shuffle, so that a wall-clock budget or a group limit samples the workload
@@ -263,9 +263,8 @@ fn cmd_check(args: &[String]) {
             }
         }
     }
-    let _ = std::fs::remove_dir_all(&sandbox);
-    if let Some(root) = exec::TREE_ROOT.get() {
-        let _ = std::fs::remove_dir_all(root);
+    if let Some(run_root) = sandbox.parent() {
+        let _ = std::fs::remove_dir_all(run_root);
     }
     emit(json!({"t": "done", "shard": shard, "groups_total": total, "skipped_for_budget": skipped}));
 }
@@ -289,7 +288,7 @@ fn cmd_replay(args: &[String]) {
     let verbose = args.iter().any(|a| a == "--verbose");
     exec::install_panic_hook();
     sim::install_hooks();
-    let sandbox = scratch_root().join(format!("replay-{}", std::process::id()));
+    let sandbox = scratch_root().join(format!("replay-{}", std::process::id())).join("sb");
     let _ = std::fs::remove_dir_all(&sandbox);
     let (ref_res, _, _) = run_plan(&reference, &sandbox, true, false, &|_| vec![]);
     let _ = std::fs::remove_dir_all(&sandbox);
@@ -299,9 +298,8 @@ fn cmd_replay(args: &[String]) {
     for h in &prepared {
         eprintln!("{h}");
     }
-    let _ = std::fs::remove_dir_all(&sandbox);
-    if let Some(root) = exec::TREE_ROOT.get() {
-        let _ = std::fs::remove_dir_all(root);
+    if let Some(run_root) = sandbox.parent() {
+        let _ = std::fs::remove_dir_all(run_root);
     }
     for a in &applied {
         eprintln!("fault applied: {a}");
@@ -347,7 +345,7 @@ fn cmd_minimise(args: &[String]) {
     let budget: usize = arg_value(args, "--runs").and_then(|s| s.parse().ok()).unwrap_or(500);
     exec::install_panic_hook();
     sim::install_hooks();
-    let sandbox = scratch_root().join(format!("min-{}", std::process::id()));
+    let sandbox = scratch_root().join(format!("min-{}", std::process::id())).join("sb");
     let _ = std::fs::remove_dir_all(&sandbox);
     let (ref_res, _, _) = run_plan(&reference, &sandbox, true, false, &|_| vec![]);
     let reference_rec = ref_res.rec;
@@ -466,9 +464,8 @@ fn cmd_minimise(args: &[String]) {
     // one last verbose run for the annotated log
     let _ = std::fs::remove_dir_all(&sandbox);
     let (res, applied, prepared) = run_plan(&best, &sandbox, true, true, &|rec| judge(&check_prop, &best, &reference_rec, rec));
-    let _ = std::fs::remove_dir_all(&sandbox);
-    if let Some(root) = exec::TREE_ROOT.get() {
-        let _ = std::fs::remove_dir_all(root);
+    if let Some(run_root) = sandbox.parent() {
+        let _ = std::fs::remove_dir_all(run_root);
     }
     let hit = res.violations.iter().find(|x| x.property == property && x.class == class).cloned();
     let Some(hit) = hit else {
@@ -505,7 +502,7 @@ fn main() {
             let text = std::fs::read_to_string(&args[2]).expect("read plan");
             let plan: Plan = serde_json::from_str(&text).expect("parse plan");
             let verbose = args.iter().any(|a| a == "--verbose");
-            let sandbox = scratch_root().join(format!("one-{}", std::process::id()));
+            let sandbox = scratch_root().join(format!("one-{}", std::process::id())).join("sb");
             let _ = std::fs::remove_dir_all(&sandbox);
             exec::install_panic_hook();
             sim::install_hooks();
@@ -518,7 +515,13 @@ fn main() {
                     std::fs::write(keep, font).expect("write font copy");
                 }
             }
-            let _ = std::fs::remove_dir_all(&sandbox);
+            if let Some(keep) = arg_value(&args, "--keep-sandbox") {
+                let _ = std::fs::remove_dir_all(&keep);
+                let _ = std::fs::rename(&sandbox, &keep);
+            }
+            if let Some(run_root) = sandbox.parent() {
+                let _ = std::fs::remove_dir_all(run_root);
+            }
             if verbose {
                 if let Some(log) = &rec.log {
                     for l in log {
@@ -541,7 +544,7 @@ fn main() {
             let plan: Plan = serde_json::from_str(&text).expect("parse plan");
             let n: usize = args[3].parse().unwrap();
             let fork = args.iter().any(|a| a == "--fork");
-            let sandbox = scratch_root().join(format!("bench-{}", std::process::id()));
+            let sandbox = scratch_root().join(format!("bench-{}", std::process::id())).join("sb");
             exec::install_panic_hook();
             sim::install_hooks();
             let t0 = real_now();
@@ -553,7 +556,9 @@ fn main() {
                     let _ = exec::execute(&plan, &sandbox, false);
                 }
             }
-            let _ = std::fs::remove_dir_all(&sandbox);
+            if let Some(run_root) = sandbox.parent() {
+                let _ = std::fs::remove_dir_all(run_root);
+            }
             println!("{} runs in {:.3}s = {:.2} ms/run", n, real_now() - t0, (real_now() - t0) * 1000.0 / n as f64);
         }
         "check" => cmd_check(&args),
